@@ -8,7 +8,7 @@
      cplx    complex field                      p32     single precision
      batch   0 = None, 1, 2 (,3)                mag     magnitude code of theta: 1 -> 0.3, 2 -> 2, 3 -> 20, 4 -> 100 *)
 EXTENDS Integers, FiniteSets, TLC
-CONSTANTS DMax, BatchSet
+CONSTANTS DMax, BatchSet, ExpDims
 VARIABLE a
 D(cls, method, d, r, opt, cplx, p32, batch, mag) == [cls |-> cls, method |-> method, d |-> d, r |-> r, opt |-> opt, cplx |-> cplx, p32 |-> p32, batch |-> batch, mag |-> mag]
 Mags == 1..4
@@ -26,6 +26,11 @@ Calls ==
    \cup {D("SeparableDensityMatrix", "", d, r, 0, TRUE, p, b, g) : d \in 2..3, r \in 2..3, p \in BOOLEAN, b \in BatchSet, g \in Mags}
    \* Hermitian operators on A (x) B^k that are invariant under permutations of the B copies (d = dim A, r = dim B, opt = k); no batch option
    \cup {D(c, "", d, r, k, TRUE, p, 0, g) : c \in {"ABkHermitian", "ABk2localHermitian"}, d \in 2..3, r \in 2..2, k \in 1..2, p \in BOOLEAN, g \in Mags}
+   \* the exponential trivialization of density matrices, symmetric_matrix_to_trace1PSD (used by numqi.maximum_entropy): a functional map
+   \* without a wrapper class.  It switches from a dense to an iterative eigenvalue routine above dimension 5, so the dimensions of the
+   \* instance (ExpDims) lie on both sides; opt = shape of the spectrum (0 generic, 1 dominated by a large negative eigenvalue, 2 by a
+   \* large positive one) - the map subtracts the largest eigenvalue so that no magnitude overflows
+   \cup {D("ExpTrace1PSD", "", d, 0, o, c, FALSE, b, g) : d \in ExpDims, o \in 0..2, c \in BOOLEAN, b \in BatchSet, g \in {1, 3, 4}}
 \* the documented domain
 Admissible(c) ==
   CASE c.cls = "PositiveReal" -> ~(c.method = "exp" /\ c.mag = 4)                      \* exp(100) is not representable in single precision; exp is used up to 20
